@@ -130,6 +130,7 @@ def run(cx):
     cx.rule("C02.R4", "K1", "the only revival Error->Running is the catch hook, under err-present and once-flag-false, and sets the flag first")
     cx.rule("C02.R5", "K1", "exec refuses closed tasks; init body only for state None; run body only for Ready")
     cx.rule("C02.R6", "K2", "init/next/review/error re-target the context to their task (assumption A3)")
+    cx.rule("C02.R7", "K3", "structural facts the typestate engine relies on: hook registration discipline, stored handlers are invoked only from their emit function, value-trait impls write no task state, err is Some only in Error")
 
     _, tables = engine(cx)
     r1_writers(cx, pa)
@@ -138,6 +139,7 @@ def run(cx):
     r4_catch(cx, tables)
     r5_exec(cx, tables)
     r6_set_task(cx)
+    r7_engine_assumptions(cx)
 
 
 # ------------------------------------------------------------------------------------------------
@@ -510,3 +512,52 @@ def r6_set_task(cx):
                     ok = True
         cx.ob("C02.R6", "set_task:%s" % name, ok, "`<Arc<Task>>::%s` binds the context to its own task before dispatching on the node kind" % name, f.loc())
     cx.floor("C02.R6", 4)
+
+
+def r7_engine_assumptions(cx):
+    from rules.common import hook_discipline
+    m = cx.m
+    eng, _ = engine(cx)
+    hook_discipline(cx, "C02.R7")
+    bad = eng.sm.value_traits_are_pure()
+    cx.ob("C02.R7", "value-traits", not bad,
+          "no impl of a std value trait (Default, Clone, From, Display, Serialize, ...) in the workspace can reach a task-state write "
+          "(the call graph does not fan generic calls of these traits out): %s" % ([short_name(q) for q, _ in bad] or "none"), None)
+    # stored handlers: task/proc handlers are invoked synchronously by exactly their emit functions,
+    # every other handler table is only iterated inside a spawned async block
+    pa = Prov(m, "alias")
+    for kind, emit_q in T.HANDLER_EMITTERS.items():
+        f = m.fns.get(emit_q)
+        has_call = f is not None and any(c.kind == "virtual" and (c.callee.get("decl") or "").endswith("Fn::call") for c in f.calls())
+        cx.ob("C02.R7", "handler:%s" % kind, has_call and len(eng.sm.handlers.get(kind, [])) == 1,
+              "the single `on_%s` handler is invoked synchronously from `%s`" % (kind, short_name(emit_q)), f.loc() if f else None)
+    sync_other = []
+    for f in m.fns.values():
+        if f.q.startswith("acts::event::emitter::Emitter::") and "::{closure" not in f.q and f.q not in T.HANDLER_EMITTERS.values():
+            if any(c.kind == "virtual" and (c.callee.get("decl") or "").endswith("Fn::call") for c in f.calls()):
+                sync_other.append(f.short)
+    cx.ob("C02.R7", "handler:others-async", not sync_other,
+          "message/start/complete/error/tick handlers are never called synchronously by the emitter (found: %s)" % (sync_other or "none"), None)
+    # err cell: written by set_err, set_pure_err and cleared by set_state only
+    writers = set()
+    for f in m.fns.values():
+        if f.crate == "acts" and "task::Task" in (f.impl_self or ""):
+            for c in f.calls():
+                if re.search(r"^std::sync::RwLock::<T>::write$", c.q):
+                    r = pa.root(f, c.args[0])
+                    if r[0] == "param" and r[3] and r[3][-1] == "err":
+                        writers.add(f.short)
+    cx.ob("C02.R7", "err-cell", writers == {"Task::set_err", "Task::set_pure_err", "Task::set_state"},
+          "the err cell is written only by set_err (followed by Error), the loader's set_pure_err, and cleared by set_state (found %s)" % sorted(writers), None)
+    f = m.one(r"^%s::set_state$" % TASK)
+    # set_state clears err unless the new state is Error
+    clears = False
+    for c in f.calls():
+        if re.search(r"^std::sync::RwLock::<T>::write$", c.q):
+            r = pa.root(f, c.args[0])
+            if r[0] == "param" and r[3][-1:] == ("err",):
+                for g in guards_of(m, f, c.b, mode="value"):
+                    if g.root[0] == "call" and re.search(r"PartialEq.*>::(ne|eq)$", g.root[1]):
+                        clears = True
+    cx.ob("C02.R7", "err-cleared", clears, "set_state clears the error whenever the new state is not Error (so err().is_some() implies state Error)", f.loc())
+    cx.floor("C02.R7", 14)
